@@ -191,6 +191,10 @@ impl Run {
         self.env.push((k.as_ref().to_os_string(), v.as_ref().to_os_string()));
         self
     }
+    pub fn unset_env(mut self, k: &str) -> Run {
+        self.env.retain(|(kk, _)| kk != k);
+        self
+    }
     pub fn cwd(mut self, p: impl AsRef<Path>) -> Run {
         self.cwd = p.as_ref().to_path_buf();
         self
